@@ -1,3 +1,52 @@
-(** placeholder *)
-From Xds Require Import Model.SysCheck.
-Theorem C04_placeholder : True. Proof. exact I. Qed.
+(** C04 — Stream failures: resubscribe, per-stream nonces, cache kept, clean stop.
+    Statements only; proofs are [exact] of lemmas in Proofs/SysProofs.v. *)
+From Xds Require Import Model.Base Model.Fqdn Model.Proto Model.Decode Model.Pick Model.Route Model.Mw Model.Sys Proofs.SysProofs.
+Open Scope string_scope.
+
+(** After a non-authentication Recv failure a new stream is opened and every subscribed type - and only those -
+    is re-requested on it with the full name set, the last accepted version and an EMPTY nonce (the nonces of the
+    old stream are forgotten, so no request on the new stream can carry a nonce that was not issued on it). *)
+Theorem C04_resubscribe : forall s,
+  s_closed s = false ->
+  let '(s', rq) := reconnect s in
+  s_stream s' = s_stream s + 1 /\
+  rq = flat_map (fun t => match tget t (s_watched s) with
+                          | Some ws => [(s_stream s + 1, {| q_type := t; q_version := tget t (s_version s); q_nonce := ""; q_names := ws; q_error := false |})]
+                          | None => [] end) all_types.
+Proof. exact reconnect_requests. Qed.
+Print Assumptions C04_resubscribe.
+
+Theorem C04_nonces_forgotten : forall s t, tget t (s_nonce (fst (reconnect s))) = "".
+Proof. exact (fun s t => match t with TLis | TRc | TCl | TEp | TNt => eq_refl end). Qed.
+Print Assumptions C04_nonces_forgotten.
+
+(** Stream events never touch the cache, the name table, the accepted versions or the interest sets:
+    resources already cached keep being served throughout, and convergence (C01) simply continues. *)
+Theorem C04_cache_kept : forall c o s x,
+  (exists a, x = ORecvErr a) \/ x = OSendErr ->
+  let s' := fst (step c o s x) in
+  s_cache s' = s_cache s /\ s_table s' = s_table s /\ s_version s' = s_version s /\ s_watched s' = s_watched s /\ s_meta s' = s_meta s.
+Proof. exact stream_events_keep_data. Qed.
+Print Assumptions C04_cache_kept.
+
+(** An authentication rejection stops the client for good ... *)
+Theorem C04_auth_rejection_stops : forall c o s, s_closed (fst (step c o s (ORecvErr true))) = true.
+Proof. exact auth_rejection_closes. Qed.
+Print Assumptions C04_auth_rejection_stops.
+
+Theorem C04_stopped_for_good : forall c o s x, s_closed s = true -> s_closed (fst (step c o s x)) = true.
+Proof. exact closed_stays_closed. Qed.
+Print Assumptions C04_stopped_for_good.
+
+(** ... after which lookups still return - the cached value or an error - and nothing more is sent. *)
+Theorem C04_closed_lookups_return : forall s t n,
+  s_closed s = true ->
+  snd (lookup s t n) = match aget n (tget t (s_cache s)) with Some v => LHit v | None => LMiss end /\
+  snd (fst (lookup s t n)) = [].
+Proof. exact closed_lookup_serves_cache. Qed.
+Print Assumptions C04_closed_lookups_return.
+
+Theorem C04_lookups_always_return : forall s t n,
+  match snd (lookup s t n) with LHit _ | LMiss => True | _ => False end.
+Proof. exact lookup_returns. Qed.
+Print Assumptions C04_lookups_always_return.
